@@ -280,8 +280,21 @@ where
                     ctx.nontrivial(mix(salt, ((ch[0] as u64) << 16) | ((ch[1] as u64) << 8) | ch[2] as u64));
                 }
             } else {
-                for _ in 0..2048 {
-                    let i = rng.below(n);
+                for j in 0..2048 {
+                    // every second sample sits on or next to the BT.601 luma midpoint
+                    // (77r + 150g + 29b = 32640), where rounding ties of the binary threshold live
+                    let i = if j % 2 == 1 && S::KIND == Kind::Rgb && S::BITS == [8, 8, 8] {
+                        let (r, b) = (rng.below(256) as i64, rng.below(256) as i64);
+                        let g = ((32640 - 77 * r - 29 * b) as f64 / 150.0).round() as i64 + rng.below(3) as i64 - 1;
+                        let c = S::make([r as u32, g.clamp(0, 255) as u32, b as u32]);
+                        check_value::<S, T>(ctx, c, false);
+                        let ch = c.ch();
+                        ctx.nontrivial(mix(salt, ((ch[0] as u64) << 16) | ((ch[1] as u64) << 8) | ch[2] as u64));
+                        ctx.count("conversions_near_luma_midpoint", 1);
+                        continue;
+                    } else {
+                        rng.below(n)
+                    };
                     let c = S::nth(i);
                     check_value::<S, T>(ctx, c, false);
                     ctx.nontrivial(mix(salt, i));
